@@ -54,3 +54,61 @@ CHECKS["C09"] = dict(
     outside=["more than 3 factors", "exponents above 4", "non-polynomial atoms other than one opaque function application"],
     assumptions=["value oracle D2 (vlib/veval.h): Add/Mul/Pow node meaning over the reals"],
 )
+
+CHECKS["C05"] = dict(
+    src="C05.cpp", level="model_checking",
+    entries=[
+        dict(name="harness_c05_binop", quick={"kinds": 3, "gmax": 10, "gdmax": 2, "nmax_mul": 200, "dmax": 3, "divmax": 12, "gdivmax": 2}, thorough={"gmax": 30, "gdmax": 3, "nmax_mul": 1000, "dmax": 4, "divmax": 20, "gdivmax": 3}),
+        dict(name="harness_c05_pow", quick={"kmax": 3, "pmax": 6, "gmax": 3, "gdmax": 2}, thorough={"kmax": 4, "pmax": 12, "gmax": 5, "gdmax": 2}),
+        dict(name="harness_c05_api", quick={}, thorough={}),
+    ],
+    anchors=["SymEngine::Rational::from_mpq", "SymEngine::Rational::from_two_ints", "SymEngine::Complex::from_mpq", "SymEngine::Integer::divint", "SymEngine::Integer::pow_negint"],
+    bounds="all 3x3 kind pairs x {add,sub,mul,div}: integers and rational numerators |n|<=2e9 for add/sub, <=1000 (30000) for mul/div, symbolic unnormalised denominators 1..3 (6) through from_two_ints; Gaussian rationals |n|<=12 (40), d<=2 (3); integer exponents -3..3 (5) on bases |n|<=10 (30); exact Z arithmetic (z3 Int)",
+    outside=["multi-limb symbolic operands (GMP itself is assumed exact)"],
+    assumptions=["oracle = cross-multiplied fractions computed with GMP calls made directly by the harness"],
+)
+
+CHECKS["C06"] = dict(
+    src="C06.cpp", level="model_checking",
+    entries=[
+        dict(name="harness_c06_number", quick={"nmax": 4, "dbl_table": 1}, thorough={"nmax": 30}),
+        dict(name="harness_c06_api", quick={"nmax": 4, "dbl_table": 1}, thorough={"nmax": 30}),
+    ],
+    anchors=["SymEngine::Infty::add", "SymEngine::Infty::mul", "SymEngine::NaN::add", "SymEngine::NaN::mul", "SymEngine::RealDouble::add", "SymEngine::Integer::add", "SymEngine::Rational::add", "SymEngine::Complex::add"],
+    bounds="all 7x7 ordered kind pairs (Integer, Rational, Gaussian rational, RealDouble, ComplexDouble, {+oo,-oo,zoo}, nan); integer payloads |v|<=4 (30) in bit-vector mode, rational denominators 1..3, doubles: quick tier 8 representative values per component {0,-0,1,-2.5,1e300,inf,-inf,nan} (the property's finite pair table), thorough tier all 2^64 bit patterns per component; Number::add/mul/sub/div and add()/mul()",
+    outside=["pow between kinds", "multi-limb integers"],
+)
+
+CHECKS["C25"] = dict(
+    src="C25.cpp", level="model_checking",
+    entries=[
+        dict(name="harness_c25_set", quick={"R": 2, "C": 3}, thorough={"R": 3, "C": 3}),
+        dict(name="harness_c25_coo", quick={"ntrip": 3}, thorough={"ntrip": 5}),
+        dict(name="harness_c25_ops", quick={}, thorough={}),
+    ],
+    anchors=["SymEngine::CSRMatrix::set", "SymEngine::CSRMatrix::get", "SymEngine::CSRMatrix::from_coo", "SymEngine::CSRMatrix::csr_sum_duplicates", "SymEngine::CSRMatrix::transpose", "SymEngine::csr_matmat_pass2", "SymEngine::csr_binop_csr_canonical"],
+    bounds="inductive step from an ARBITRARY canonical CSR state of shape 2x3 (3x3): symbolic row lengths and column indices, distinct symbols as values; two successive set(i,j,e) with symbolic i,j and zero/non-zero e; from_coo with 3 (5) triplets with symbolic (possibly duplicate) coordinates; transpose, csr_binop_csr_canonical(add), elementwise product, 2x2 matrix product (csr_matmat_pass1/2 + csr_sort_indices), csr_scale_rows/columns, csr_diagonal, eq",
+    outside=["shapes above 3x3", "conjugate, jacobian", "CSRMatrix::add_matrix/mul_matrix/mul_scalar/submatrix/LU... which throw NotImplementedError by design"],
+)
+
+CHECKS["C46"] = dict(
+    src="C46.cpp", level="model_checking",
+    entries=[dict(name="harness_c46", quick={"shapes": 3, "B": 2, "K": 4}, thorough={"shapes": 4, "B": 3, "K": 6})],
+    anchors=["SymEngine::homogeneous_lde"],
+    bounds="A in Z^{p x q}, (p,q) in {(1,2),(1,3),(2,3)} (thorough adds (2,4)), entries |a|<=2 (3) symbolic; completeness checked against every x in [0,4]^q ([0,6]^q) with x symbolic (one solver query per path)",
+    outside=["solutions with a coordinate above K (Pottier bound (1+max|a| q)^p may exceed K)", "larger matrices"],
+)
+
+CHECKS["C21"] = dict(
+    src="C21.cpp", level="model_checking",
+    entries=[
+        dict(name="harness_c21_mul", quick={"nmax": 3, "B": 7, "nonneg": 1}, thorough={"nmax": 3, "B": 15, "nonneg": 0}),
+        dict(name="harness_c21_linear", quick={"B": 1000}, thorough={"B": 1000000}),
+        dict(name="harness_c21_pow_div", quick={"B": 3}, thorough={"B": 6}),
+        dict(name="harness_c21_convert", quick={"B": 4}, thorough={"B": 12}),
+        dict(name="harness_c21_urat", quick={"B": 4}, thorough={"B": 10}),
+    ],
+    anchors=["SymEngine::UIntDict::mul", "SymEngine::UIntDict::eval_bit", "SymEngine::divides_upoly", "SymEngine::pow_upoly", "SymEngine::URatPoly"],
+    bounds="UIntPoly: all length pairs up to 3x3 terms with symbolic coefficients 0<=c<=7 (quick; thorough: -15..15 all signs and zeros) against the schoolbook convolution (Kronecker substitution is executed symbolically); add/sub/neg/eval/diff/eq on 3-term polynomials |c|<=1000; pow up to 3 and exact division (p*q)/q on 2-term polynomials; from_basic/as_symbolic round trip; URatPoly products and sums with denominators 1..3",
+    outside=["more than 3 terms", "UExprPoly", "multi-limb coefficients"],
+)
